@@ -109,6 +109,14 @@ def paths_are_equal(F):
     up = [t for t in c0 if t[0] == "expr" and t[1][0] == "call" and t[1][1].endswith("ConvertToUpperInPlace")]
     dot = [t for t in c0 if t[0] == "if" and "./" in repr(t)]
     inst = XF + "PathsAreEqual#contents"
+    # order matters: every value derived from the argument must be derived after the case folding
+    if up and c0.index(up[0]) != 0:
+        out.append(bad("R-SIB", XF + "PathsAreEqual#fold-first", fn.loc(fn.body), fn.qn,
+                       "case folding is applied to the argument before anything is derived from it",
+                       "statement %d of the per-argument sequence folds the case; earlier ones already use the argument" % c0.index(up[0])))
+    elif up:
+        out.append(ok("R-SIB", XF + "PathsAreEqual#fold-first", fn.loc(fn.body), fn.qn,
+                      "case folding is applied to the argument before anything is derived from it", "first statement of the per-argument sequence"))
     if up and dot:
         out.append(ok("R-SIB", inst, fn.loc(fn.body), fn.qn, "normalisation = case folding followed by the leading './' rule", "both present"))
     else:
